@@ -85,7 +85,15 @@ def one(ctx, pts, K, E, t, family):
             ctx.fail('predicate', 'accuracy-in-[0,1]', 'evaluation.accuracy', case, dict(acc=acc, **detail))
         if f1 is not None and not (0.0 <= f1 <= 1.0):
             ctx.fail('predicate', 'f1-in-[0,1]', 'evaluation.f1score', case, dict(f1=f1, **detail))
+        # the scores ARE functions of the matrix: accuracy = (TP+TN)/sum, F1 = 2TP/(2TP+FP+FN), MCC = (TP*TN-FP*FN)/sqrt(den)
+        tot = tp + fp + fn + tn
+        if tot > 0 and abs(acc - (tp + tn) / tot) > 1e-12:
+            ctx.fail('predicate', 'accuracy==(TP+TN)/total', 'evaluation.accuracy', case, dict(acc=acc, **detail))
+        if f1 is not None and abs(f1 - 2 * tp / (2 * tp + fp + fn)) > 1e-12:
+            ctx.fail('predicate', 'f1==2TP/(2TP+FP+FN)', 'evaluation.f1score', case, dict(f1=f1, **detail))
         den = (tp + fp) * (tp + fn) * (tn + fp) * (tn + fn)
+        if den > 0 and abs(float(ev.mcc(m)) - (tp * tn - fp * fn) / math.sqrt(den)) > 1e-12:
+            ctx.fail('predicate', 'mcc==(TP*TN-FP*FN)/sqrt(den)', 'evaluation.mcc', case, dict(mcc=float(ev.mcc(m)), **detail))
         if den > 0:
             mc = float(ev.mcc(m))
             if not (-1.0 - 1e-12 <= mc <= 1.0 + 1e-12):
@@ -139,7 +147,7 @@ def one(ctx, pts, K, E, t, family):
         if np.all(a[:, 0] > 2.0 ** -10) and np.all(a[:, 1] > 2.0 ** -10) and math.isfinite(rmspe):
             if abs(F(rmspe * rmspe) - qrp) > F(1, 10 ** 9) * (abs(qrp) + 1):
                 ctx.fail('correspondence', 'rmspeSqQ vs float', f'evaluation.rmspe[{s}]', case, dict(sd, model=float(qrp)))
-        if len(E) == len(kp) and np.array_equal(E, kp):
+        if len(E) == len(kp) and sorted(map(tuple, E.tolist())) == sorted(map(tuple, kp.tolist())):       # E is exactly the knee points, in ANY order
             if mae != 0 or mse != 0 or rmse != 0 or rmspe != 0:
                 ctx.fail('predicate', 'errors-vanish-when-E-is-knee-points', f'evaluation[{s}]', case, sd)
     nontriv = (pts.tobytes(), tuple(K), E.tobytes(), float(t)) if (0 < tp < len(E)) else None
@@ -159,6 +167,8 @@ def run(ctx):
         mode = rng.choice(['subset', 'exactK', 'jitter', 'dup', 'mixed'])
         if mode == 'exactK':
             E = pts[K].copy()
+            if rng.random() < 0.5:
+                E = E[rng.sample(range(len(E)), len(E))]            # the same points listed in another order
         elif mode == 'subset':
             E = pts[sorted(rng.sample(range(n), ne))].copy()
         elif mode == 'jitter':
